@@ -1345,7 +1345,11 @@ def float_coercion_patches():
                 A = A.view(SymArray)
             if isinstance(B, numpy.ndarray) and B.ndim > 0:
                 B = B.view(SymArray)
-            return abs(A - B) <= atol + rtol * abs(B)
+            r = abs(A - B) <= atol + rtol * abs(B)
+            # numpy returns a BOOL array (usable as a mask): decide every element now (forks the path per element)
+            if isinstance(r, numpy.ndarray):
+                return numpy.array([bool(v) for v in r.ravel()], dtype=bool).reshape(r.shape)
+            return bool(r)
         return orig_isclose(a, b, rtol=rtol, atol=atol, equal_nan=equal_nan)
 
     def allclose(a, b, rtol=1e-05, atol=1e-08, equal_nan=False):
@@ -1353,6 +1357,50 @@ def float_coercion_patches():
             r = isclose(a, b, rtol=rtol, atol=atol, equal_nan=equal_nan)
             return bool(numpy.all(r)) if isinstance(r, numpy.ndarray) else bool(r)
         return orig_allclose(a, b, rtol=rtol, atol=atol, equal_nan=equal_nan)
+    orig_interp = numpy.interp
+
+    def interp(x, xp, fp, left=None, right=None, period=None):
+        # numpy's arr_interp for len(xp) <= 4 (linear search branch of binary_search_with_guess), on symbolic contents; xp is
+        # NOT assumed increasing - numpy does not check it either, and what it then returns is part of its behaviour
+        if not (_has_sym(x) or _has_sym(xp) or _has_sym(fp)):
+            return orig_interp(x, xp, fp, left=left, right=right, period=period)
+        if period is not None:
+            raise Unsupported('numpy.interp(period=...) on symbolic values')
+        dx = list(numpy.asarray(xp, dtype=object).ravel())
+        dy = list(numpy.asarray(fp, dtype=object).ravel())
+        n = len(dx)
+        if n == 0 or n != len(dy):
+            raise ValueError('fp and xp are not of the same length.' if n else 'array of sample points is empty')
+        if n > 4:
+            raise Unsupported('numpy.interp on more than 4 symbolic nodes (binary search with guess not modelled)')
+        lval = dy[0] if left is None else left
+        rval = dy[-1] if right is None else right
+        xs = numpy.asarray(x, dtype=object)
+        out = []
+        for xv in xs.ravel():
+            if xv > dx[-1]:
+                out.append(rval)
+                continue
+            if xv < dx[0]:
+                out.append(lval)
+                continue
+            i = 1
+            while i < n and xv >= dx[i]:
+                i += 1
+            j = i - 1
+            if j == n - 1 or dx[j] == xv:
+                out.append(dy[j])
+            else:
+                slope = (dy[j + 1] - dy[j]) / (dx[j + 1] - dx[j])
+                out.append(slope * (xv - dx[j]) + dy[j])
+        if xs.ndim == 0:
+            return out[0]
+        r = numpy.empty(len(out), dtype=object)
+        for i_, v in enumerate(out):
+            r[i_] = v
+        return r.reshape(xs.shape).view(SymArray)
+    interp.__wrapped__ = orig_interp
+    out.append((numpy, 'interp', interp))
     isclose.__wrapped__, allclose.__wrapped__ = orig_isclose, orig_allclose
     out.append((numpy, 'isclose', isclose))
     out.append((numpy, 'allclose', allclose))
